@@ -135,8 +135,8 @@ func c07_8(c *core.Ctx, p *core.Prog) {
 	for changed := true; changed; {
 		changed = false
 		for _, fn := range sortedFuncs(p, reach) {
-			if fn.Synthetic != "" || fn.Parent() != nil || releasers[fn] {
-				continue
+			if fn.Synthetic != "" || releasers[fn] {
+				continue // (function literals count: a decoder may be handed over wrapped in a closure)
 			}
 			var recs *ssa.Parameter
 			for _, pr := range fn.Params {
@@ -189,7 +189,20 @@ func c07_8(c *core.Ctx, p *core.Prog) {
 		}
 	}
 	// (d) every Consumer.*From hands the consumed records to a releasing function on every success path of Consume
+	callsConsume := func(f *ssa.Function) bool {
+		found := false
+		core.EachCall(f, func(ci ssa.CallInstruction) {
+			if o := core.CalleeObj(ci); o != nil && o.Name() == "Consume" && core.RecvNamed(o) != nil && core.RecvNamed(o).Obj().Name() == "Consumer" {
+				found = true
+			}
+		})
+		return found
+	}
 	for _, from := range methodsOf(p, pkgArrowRecord, "Consumer", "TracesFrom", "LogsFrom", "MetricsFrom") {
+		// the body may live in a helper the entry point delegates to (one generic helper for the three signals)
+		if d := delegateOf(p, from, callsConsume); d != nil {
+			from = d
+		}
 		var consume *ssa.Call
 		core.EachInstr(from, func(i ssa.Instruction) {
 			if cl, ok := i.(*ssa.Call); ok {
